@@ -94,8 +94,15 @@ class Impl:
                 from statemachine.mixins import MachineMixin
                 registry._initialized = True   # not a django project: no module autodiscovery
                 registry.register(b.cls)
+                fld = getattr(self, "mixin_field", "state")
                 ns = {"state_machine_name": f"{b.cls.__module__}.{b.cls.__name__}",
-                      "bind_events_as_methods": True, "_prov": "model", "state": self.stored}
+                      "bind_events_as_methods": True, "_prov": "model", fld: self.stored,
+                      "state_field_name": fld}
+                from .spec import _mk
+                for (pp, nn, ff) in b.m.provided:
+                    if pp == "model":
+                        ns[nn] = _mk(nn, ff)
+                self.state_field = fld
                 self.model = type("MixModel", (MachineMixin,), ns)()
                 self.sm = self.model.statemachine
                 return None
@@ -281,14 +288,15 @@ class Pair:
     """Reference + implementation for one (machine, cfg, plan); runs ops in lock-step."""
 
     def __init__(self, built, cfg, plan=None, stored=None, start_value=None, deep=False,
-                 results="cid"):
+                 results="cid", model=None, state_field="state", listeners=None):
         from .ref import Ref
         self.built = built
         self.cfg = cfg
         self.ref = Ref(built.m, cfg, plan=plan, stored=stored, start_value=start_value,
                        results=results)
         self.impl = Impl(built, cfg, plan=plan, stored=stored, start_value=start_value,
-                         deep=deep, results=results)
+                         deep=deep, results=results, model=model, state_field=state_field,
+                         listeners=listeners)
         self.steps = 0
 
     def construct(self):
